@@ -2405,3 +2405,22 @@ package gomatrixserverlib
 //@ func truncateAuthAndPrevEvents
 //@   property C18:safety
 //@   inline
+
+// ---- make_join / send_join client side: the returned auth chain must hold a create event of a known room version
+//@ func RoomVersions
+//@   trusted
+//@   ensures is-the-version-table: forall v string :: (v in result) <==> verKnown(v)
+//@   assigns nothing
+
+//@ func checkEventsContainCreateEvent
+//@   property C15
+//@   nosafety
+//@   ensures needs-a-create-event: result == nil ==> (exists i int :: 0 <= i && i < len(events) && events[i].Type() == "m.room.create" && events[i].StateKeyEquals(""))
+//@   ensures first-create-event-declares-a-known-version: forall i int :: (result == nil && 0 <= i && i < len(events) && events[i].Type() == "m.room.create" && events[i].StateKeyEquals("") && (forall j int :: 0 <= j && j < i ==> !(events[j].Type() == "m.room.create" && events[j].StateKeyEquals("")))) ==> verKnown((jhas(events[i].Content(), "room_version") && jstr(events[i].Content(), "room_version") != "") ? jstr(events[i].Content(), "room_version") : "1")
+//@   loop 1: invariant 0 <= idx(1) && idx(1) <= len(events) && (forall j int :: 0 <= j && j < idx(1) ==> !(events[j].Type() == "m.room.create" && events[j].StateKeyEquals("")))
+
+// ---- state resolution v2 / v2.1, the current entry point: order of the passes
+//@ func ResolveStateConflictsV2New
+//@   property C10, C11
+//@   nosafety
+//@   ensures unconflicted-state-is-re-applied-after-the-last-auth-pass: called(authAndApplyEvents) ==> ncalls(applyEvents) == after(authAndApplyEvents, ncalls(applyEvents)) + 1
